@@ -1287,3 +1287,20 @@ Proof.
            destruct (try_delete_nodes_calls _ _ _ _ _ _ Er) as [_ [Hr _]]. apply removal_inert in Hr.
            destruct rerr as [[|]|]; simpl; apply (c07_quiet x Hdry); repeat apply inert_app; try assumption; apply lag_inert.
 Qed.
+
+(* C10's reuse clause is the restriction of C07's to the protected nodes *)
+Lemma c07_implies_c10_reuse x calls : check_C07_group x calls = true -> check_C10_reuse x calls = true.
+Proof.
+  unfold check_C07_group, check_C10_reuse. destruct (x_dry x); [reflexivity|].
+  intros H. apply andb_true_iff in H. destruct H as [_ H].
+  destruct (existsb is_cloud_increase calls); [|reflexivity].
+  rewrite forallb_forall in H. apply forallb_forall. intros n Hn. specialize (H n Hn).
+  destruct (safe_from_deletion n && negb (has_force n)); [|reflexivity].
+  apply andb_true_iff in H. exact (proj1 H).
+Qed.
+
+Theorem group_passes_C10_reuse now gdry api g a nodes pods :
+  let x := ctx_of now gdry api g a nodes pods in
+  NoDup (map n_name (x_nodes x)) ->
+  check_C10_reuse x (r_calls (scan_of now gdry api g a nodes pods)) = true.
+Proof. intros x Hnd. apply c07_implies_c10_reuse. apply group_passes_C07. exact Hnd. Qed.
